@@ -132,8 +132,8 @@ End NoDev.
 
 Corollary irun_none_is_run fuel p : irun dev_none fuel p = run fuel p.
 Proof.
-  unfold irun, run.
-  rewrite (exec_list_ext _ _ (proj2 (mech_no_deviation_is_ref_l (pfuncs p) fuel)) (pmain p) (init_state p)).
+  unfold irun, run. destruct (init_state p) as [s0|]; [|reflexivity].
+  rewrite (exec_list_ext _ _ (proj2 (mech_no_deviation_is_ref_l (pfuncs p) fuel)) (pmain p) s0).
   reflexivity.
 Qed.
 
